@@ -33,6 +33,8 @@ def run(ctx):
     for k in range(n):
         p, e = draw(rng)
         b = ElectronBeam(*p)
+        if k % 4 == 3:   # reach the same parameters through the public `current` setter after a first evaluation
+            b = ElectronBeam(p[0] * 2.5, *p[1:]); b.space_charge_correction(e, 0.0); b.current = p[0]
         # generated formulas
         for name, f in (("characteristic_potential", b.characteristic_potential), ("herrmann_radius", b.herrmann_radius)):
             t = D.ask(f"k {name} " + farr(list(p) + [e]))
@@ -81,10 +83,22 @@ def stmt(p, e, rng):
         F = float(b.characteristic_potential(e + sc) * (2 * np.log(b.herrmann_radius(e + sc) / r_d) - 1))
         if abs(sc - F) > 1e-5 * abs(sc):
             add("fixed_point", f"on-axis value {sc!r} is not a fixed point: map gives {F!r}")
-        r_e = float(b.herrmann_radius(e + sc)); phi0 = float(b.characteristic_potential(e + sc))
-        rs = np.sort(np.concatenate([[0.0, r_d], rng.uniform(0, r_d, 40), r_e * (1 + np.array([-1e-9, 0, 1e-9]))]))
+        # the documented iteration, re-stated with the public formulas only
+        new, old, it = 1.0, 0.0, 0
+        while (new - old) / new > 1e-6 and it < 10000:
+            ce = e + new
+            r_e = float(b.herrmann_radius(ce)); phi0 = float(b.characteristic_potential(ce))
+            old = new; new = phi0 * (2 * np.log(r_e / r_d) - 1); it += 1
+        r_e0 = float(b.herrmann_radius(e))
+        rs = np.sort(np.concatenate([[0.0, r_d], rng.uniform(0, r_d, 40), rng.uniform(0, min(1.5 * r_e, r_d), 20),
+                                     r_e * (1 + np.array([-1e-9, 0, 1e-9])), r_e0 * (1 + np.array([-1e-9, 0, 1e-9])), [0.5 * (r_e + r_e0)]]))
         rs = rs[(rs >= 0) & (rs <= r_d)]
         v = np.array([b.space_charge_correction(e, float(r)) for r in rs])
+        spec = np.where(rs < r_e, phi0 * (2 * np.log(r_e / r_d) + (rs / r_e) ** 2 - 1), phi0 * 2 * np.log(np.maximum(rs, 1e-300) / r_d))
+        bad = np.abs(v - spec) > 1e-11 * abs(sc)
+        if bad.any():
+            i = int(np.argmax(np.abs(v - spec)))
+            add("profile_formula", f"profile at r={rs[i]!r} is {v[i]!r}, quadratic/logarithmic profile with r_H(E+phi)={r_e!r} gives {spec[i]!r}", r=float(rs[i]))
         if v[-1] != 0 and abs(v[-1]) > 1e-12 * abs(sc):
             add("zero_at_tube", f"profile at r_d is {v[-1]!r}")
         if (v[:-1] >= 0).any():
@@ -94,6 +108,14 @@ def stmt(p, e, rng):
         i = np.searchsorted(rs, r_e)
         if 0 < i < rs.size and abs(v[i] - v[i - 1]) > 1e-6 * abs(sc):
             add("continuous", f"profile jumps at the beam edge: {v[i-1]!r} -> {v[i]!r}")
+    # the beam current is a settable attribute: results must follow it ("for every beam")
+    b2 = ElectronBeam(*p)
+    b2.space_charge_correction(e, 0.0)
+    b2.current = cur * 0.37
+    fresh = ElectronBeam(cur * 0.37, b_d, r_d, b_c, r_c, t_c)
+    a1, a2 = float(b2.space_charge_correction(e, 0.0)), float(fresh.space_charge_correction(e, 0.0))
+    if not (a1 == a2 or (np.isnan(a1) and np.isnan(a2))):
+        add("current_setter", f"after beam.current = {cur*0.37!r} the on-axis correction is {a1!r}, a fresh beam with that current gives {a2!r}")
     for r in (-1e-6, r_d * 1.001):
         try:
             b.space_charge_correction(e, r); add("range_error", f"no ValueError for r={r}", r=r)
